@@ -32,6 +32,10 @@ def _local_copy(src: str, dst: str, read_only: bool) -> None:
                 raise
     else:
         if os.path.isdir(src):
+            # If `dst` is an existing directory, copy `src` inside `dst`
+            # (as the read-only branch and the remote connectors do)
+            if os.path.isdir(dst):
+                dst = os.path.join(dst, os.path.basename(src))
             os.makedirs(dst, exist_ok=True)
             shutil.copytree(src, dst, dirs_exist_ok=True)
         else:
